@@ -201,7 +201,8 @@ Record world := {
   config_cluster : string;
   secrets : list secret;
   configmaps : list (string * string);      (* (namespace, name) with a ca.crt, config cluster only *)
-  authz : list (string * string * string)   (* (cluster, namespace, service account) for which Authorize succeeds *)
+  authz : list (string * string * string);  (* (cluster, namespace, service account) for which Authorize succeeds *)
+  mesh_pkp : N                              (* meshConfig.DefaultConfig.PrivateKeyProvider: 0 none, 1 cryptomb, 2 qat *)
 }.
 
 Definition known_cluster (w : world) (c : string) : bool := existsb (String.eqb c) (clusters w).
@@ -220,8 +221,9 @@ Definition src_eqb (a b : src) : bool :=
 
 (* what an envoy tls Secret carries *)
 Inductive content :=
-| CCa (from : src)        (* validation context only: no private key *)
-| CTls (from : src).      (* tls_certificate with the private key of [from] *)
+| CCa (from : src)             (* validation context only: no private key *)
+| CTls (from : src) (fmt : N). (* tls_certificate with the private key of [from]; fmt = where the key sits:
+                                  0 inline private_key, 1 cryptomb provider, 2 qat provider *)
 
 Definition entry := (string * content)%type.    (* envoy Secret name, content *)
 
@@ -256,7 +258,10 @@ Definition get_configmap_ca (w : world) (cl name ns : string) : option src :=
 Record proxy := {
   verified : option identity;        (* Proxy.VerifiedIdentity *)
   p_cluster : string;                (* Proxy.Metadata.ClusterID (claimed) *)
-  p_pkp : string;                    (* hash of the private-key-provider config, "" if none *)
+  p_cfg : option N;                  (* Metadata.ProxyConfig: None = not sent; Some k = sent, with private key
+                                        provider k (0 none, 1 cryptomb, 2 qat) *)
+  p_pkp : string;                    (* parseResources' pkpConfHash: hash of the provider in Metadata.ProxyConfig,
+                                        "" if there is no ProxyConfig or it has no provider *)
   p_refs : option (list string)      (* MergedGateway.VerifiedCertificateReferences; None = no MergedGateway *)
 }.
 
@@ -323,8 +328,13 @@ Definition allowed (p : proxy) (vns : string) (auth : bool) (sr : sres) : bool :
 Definition filter_authorized (p : proxy) (vns : string) (auth : bool) (rs : list sres) : list sres :=
   filter (allowed p vns auth) rs.
 
-(* SecretGen.generate: controller chosen by type, then the three fetch paths *)
-Definition build (w : world) (pcl : string) (sr : sres) : option entry :=
+(* the provider toEnvoyTLSSecret uses: proxy.Metadata.ProxyConfigOrDefault(meshConfig.GetDefaultConfig()) *)
+Definition eff_fmt (w : world) (p : proxy) : N :=
+  match p_cfg p with Some k => k | None => mesh_pkp w end.
+
+(* SecretGen.generate: controller chosen by type, then the three fetch paths; fmt = eff_fmt of the
+   requesting proxy *)
+Definition build (w : world) (pcl : string) (fmt : N) (sr : sres) : option entry :=
   let cl := match sr_type sr with
             | TGateway | TConfigMap => config_cluster w
             | _ => pcl
@@ -339,7 +349,7 @@ Definition build (w : world) (pcl : string) (sr : sres) : option entry :=
         | Some s => Some (sr_rn sr, CCa s) | None => None end
       else
         match get_cert_info w cl (sr_name sr) (sr_ns sr) with
-        | Some s => Some (sr_rn sr, CTls s) | None => None end
+        | Some s => Some (sr_rn sr, CTls s fmt) | None => None end
   end.
 
 (* the shared cache: key -> (dependent configs, entry).  Newest first. *)
@@ -365,7 +375,7 @@ Fixpoint gen_loop (w : world) (p : proxy) (r : req) (rs : list sres) (c : cache)
         match cache_get (cache_key sr (p_pkp p)) c with
         | Some e => let '(out, c') := gen_loop w p r rest c in (e :: out, c')
         | None =>
-            match build w (p_cluster p) sr with
+            match build w (p_cluster p) (eff_fmt w p) sr with
             | Some e =>
                 let c1 := if req_stores r then (cache_key sr (p_pkp p), (related (sres_ckey sr), e)) :: c else c in
                 let '(out, c') := gen_loop w p r rest c1 in (e :: out, c')
@@ -457,7 +467,11 @@ Definition entitled (w : world) (p : proxy) (s : src) : bool :=
   end.
 
 Definition key_of (e : entry) : option src :=
-  match snd e with CTls s => Some s | CCa _ => None end.
+  match snd e with CTls s _ => Some s | CCa _ => None end.
+
+(* an entry without the information where the key sits *)
+Definition erase (e : entry) : entry :=
+  (fst e, match snd e with CTls s _ => CTls s 0 | c => c end).
 
 (* every private key in a response is one the receiver is entitled to *)
 Definition keys_entitled (w : world) (p : proxy) (out : list entry) : bool :=
@@ -475,6 +489,13 @@ Definition wf_world (w : world) : bool := forallb no_slash (clusters w).
 Definition wf_proxy (p : proxy) : bool :=
   no_slash (p_pkp p) && match verified p with Some i => no_slash (id_ns i) | None => true end.
 Definition wf_op (o : op) : bool := match o with OGen p _ _ => wf_proxy p | _ => true end.
+
+(* the cache key separates proxies by p_pkp only; [fmt_by_hash F] says that the format a proxy is served
+   is a function F of that hash (false e.g. when the mesh default has a provider and one proxy sends no
+   ProxyConfig while another sends one without provider: both hash to "") *)
+Definition fmt_by_hash (F : string -> N) (w : world) (p : proxy) : bool := N.eqb (eff_fmt w p) (F (p_pkp p)).
+Definition fmt_op (F : string -> N) (w : world) (o : op) : bool :=
+  match o with OGen p _ _ => fmt_by_hash F w p | _ => true end.
 
 (* ---------------------------------------------------------------- kube/secrets.go: CredentialsController.Authorize *)
 
